@@ -72,14 +72,14 @@ CLAIMS = {
           "the final sample's fall-back is the track's own last delta; mdhd duration is the sum over the list behind stts; composition offsets are pts-dts and ctts is conditional on the fold of `offset != 0` over exactly those offsets. R6: the stts/ctts run-length encoders extend a run only under exact equality with the current element and otherwise push (1, element).",
   "note": "Not decided: arithmetic of the run-length encoders and f64 rounding for particular cadences (value-level)."},
  "C04": {
-  "technique": "guard extraction (dominating switch edges + operand-role slices) on MIR; total-match error map via HIR interpretation; typestate dominance",
+  "technique": "guard extraction (dominating switch edges + operand-role slices) on MIR; total-match error map via HIR interpretation; typestate dominance; complete finite-domain tabulation of extracted classifier / validator tables (interpretation of the dumped MIR, nothing executed)",
   "text": "For every builder / write / finish entry point and the inner writers: each documented precondition has an error exit of the documented variant whose nearest dominating guard is the documented predicate on the documented operands (relation canonicalised incl. strictness, invariant under a<=b <-> !(a>b)); no undocumented rejection exists; "
           "success exits lie on the not-finished edge; the internal->public error conversion equals the documented table; sibling video entry points maintain each other's monotonicity state (defect found and repaired); ADTS/Opus validators are guarded on the frame bytes / codec arm."
           " R7: encode_video's own keyframe decision is tabulated over all 256 NAL header bytes (1- and 2-NAL frames) by finite-domain interpretation of the dumped MIR and must equal the codec module's public classifier (H.264, H.265)."
           " R8: ADTS acceptance table (every header field over all its values, every short length) by finite-domain interpretation. R9: the VP9 keyframe classifier and configuration extractor accept the same frame-header and marker bytes.",
   "note": "Table transcribed from docs/contract.md and the property statement (lib/mx/rules/c04.py TABLE). NaN/sub-tick behaviour of f64 comparisons is value-level and not decided. Consuming finish() is a type-level fact (thorough-tier witness)."},
  "C07": {
-  "technique": "layout interpretation (stsd selection, records) + HIR evaluation of writer/builder functions + MIR guard extraction for parameter-set slots",
+  "technique": "layout interpretation (stsd selection, records) + HIR evaluation of writer/builder functions + MIR guard extraction for parameter-set slots; read-program extraction vs specification syntax; complete finite-domain tabulation of bit-reader / slot tables (interpretation of the dumped MIR, nothing executed)",
   "text": "Sample-entry type is selected by the config variant, the variant is built from the configured codec by the matching extractor, fall-backs and the fragmented selection chain are checked per codec; every parameter-set slot receives the iterated NAL unit itself, only while empty and only for the spec's NAL type constant (7/8, 32/33/34); "
           "audio entry fields and the AudioSpecificConfig/dOps derive from the one audio configuration; av1C/vpcC field bytes are values of the parsed configuration. Two genuine defects recorded (zero-frame non-H.264 fall-back to avc1; constant fragmented av1C fields). R7-R9: hvcC profile/tier/level bytes are the identity function of the SPS bytes they summarise (all 256 values of the extracted builder+accessor expression); AAC samplingFrequencyIndex match table == ISO/IEC 14496-3 table 1.18; av1C flag bits per configuration field; the AV1 sequence-header parser's read program (transcribed from typed HIR) reads the same bit widths in the same order and yields the same configuration values as a transcription of AV1 spec 5.5.1-5.5.5 on every enumerated syntax path (about 2700 paths)."
           " R10: offset-passing header parsers (VP9) read consecutive fields - every read starts at the offset returned by the read before it on every path (provenance abstract interpretation)."
